@@ -89,7 +89,8 @@ def main():
         rep["detected_by_own_property"] = det[prop]["rc"] == 1
         rep["detected_by"] = sorted(p for p, d in det.items() if d["rc"] == 1)
         rep["verdict"] = "confirmed"
-        dst = os.path.join(HERE, "seeded", "%s-m%s" % (prop, n))
+        label = next((a.split("=", 1)[1] for a in sys.argv if a.startswith("--label=")), "m%s" % n)
+        dst = os.path.join(HERE, "seeded", "%s-%s" % (prop, label))
         os.makedirs(dst, exist_ok=True)
         shutil.copy(patch, os.path.join(dst, "patch.diff"))
         shutil.copy(demo, os.path.join(dst, "demo.diff"))
